@@ -168,9 +168,13 @@ func c03Op(r *hx.Run, t *c03Tree, nextID *int, base c03Tree) string {
 			tree[i].Path = fmt.Sprintf("rules/moved%d_%d.yml", tree[i].ID, rr.Intn(1000))
 			return "rename " + old + " -> " + tree[i].Path
 		}
-	case 3: // add rule
+	case 3: // add rule (sometimes an exact copy of a rule the file already has)
 		if i := pickFile(); i >= 0 && len(tree[i].Rules) < 5 {
 			ru := c03RandRule(r, c03Used(tree[i]))
+			if len(tree[i].Rules) > 0 && rr.Intn(5) == 0 {
+				ru = tree[i].Rules[rr.Intn(len(tree[i].Rules))]
+				ru.Comments = append([]string{}, ru.Comments...)
+			}
 			k := rr.Intn(len(tree[i].Rules) + 1)
 			tree[i].Rules = append(tree[i].Rules[:k:k], append([]c03Rule{ru}, tree[i].Rules[k:]...)...)
 			return "add rule " + ru.Name + " to " + tree[i].Path
@@ -711,6 +715,10 @@ func runC03(r *hx.Run, replay string) {
 			u := map[string]bool{}
 			for k, m := 0, 1+rr.Intn(4); k < m; k++ {
 				file.Rules = append(file.Rules, c03RandRule(r, u))
+			}
+			if rr.Intn(6) == 0 {
+				// a fully identical copy of a rule in the base file
+				file.Rules = append(file.Rules, file.Rules[rr.Intn(len(file.Rules))])
 			}
 			base = append(base, file)
 		}
